@@ -25,6 +25,29 @@ type c18Case struct {
 	Outcomes []bool `json:"outcomes"` // true = success
 	Limit    int    `json:"limit"`
 	Order    []int  `json:"order"` // completion order (prefix until the call must have returned)
+	// ErrKind: what a failing job's error looks like while the request context stays live.
+	// 0 plain; 1 wraps context.DeadlineExceeded (a job-local timeout); 2 wraps context.Canceled;
+	// 3 by job index: plain / deadline / canceled / ErrNotFound-style sentinel
+	ErrKind int `json:"err_kind,omitempty"`
+}
+
+var c18Sentinel = errors.New("not found")
+
+func c18Err(c c18Case, i int) error {
+	k := c.ErrKind
+	if k == 3 {
+		k = i % 4
+		if k == 3 {
+			return fmt.Errorf("err-%d: %w", i, c18Sentinel)
+		}
+	}
+	switch k {
+	case 1:
+		return fmt.Errorf("err-%d: %w", i, context.DeadlineExceeded)
+	case 2:
+		return fmt.Errorf("err-%d: %w", i, context.Canceled)
+	}
+	return fmt.Errorf("err-%d", i)
 }
 
 var c18ParkedRe = regexp.MustCompile(`\[(chan receive|chan send|select|semacquire|sync\.WaitGroup\.Wait|sync\.Cond\.Wait|sync\.Mutex\.Lock)[^\]]*\]`)
@@ -52,7 +75,7 @@ func c18Run(c c18Case) (viol string, vkey string, inconc string) {
 			if c.Outcomes[i] {
 				return 100 + i, nil
 			}
-			return 0, fmt.Errorf("err-%d", i)
+			return 0, c18Err(c, i)
 		}
 	}
 	type ret struct {
@@ -179,7 +202,7 @@ func c18Run(c c18Case) (viol string, vkey string, inconc string) {
 		}
 	}
 	for i := 0; i < n; i++ {
-		want = append(want, fmt.Sprintf("err-%d", i))
+		want = append(want, c18Err(c, i).Error())
 	}
 	sort.Strings(gotS)
 	sort.Strings(want)
@@ -222,7 +245,7 @@ func c18Orders(n int, outcomes []bool, limit int, emit func(order []int)) {
 func TestVerifC18(t *testing.T) {
 	rec := ev.New("C18", "schedules")
 	defer rec.Flush()
-	rec.Rule("every (n<=N jobs, outcome vector, limit in {-1,1..N}, feasible completion order); distinct = distinct (outcomes,limit,order) with n>=2")
+	rec.Rule("every (n<=N jobs, outcome vector, limit in {-1,1..N}, feasible completion order), for n<=4 also every error kind of the failing jobs (plain, wrapping context.DeadlineExceeded / context.Canceled while the request context is live, mixed); distinct = distinct (outcomes,limit,order) with n>=2")
 	maxN := ev.Pick(6, 7)
 	if r := replayC18(t, rec); r {
 		return
@@ -241,28 +264,34 @@ func TestVerifC18(t *testing.T) {
 			if n < 4 {
 				limits = append(limits, n+1) // limit above the job count
 			}
+			kinds := []int{0}
+			if n <= 4 && mask != 1<<n-1 {
+				kinds = []int{0, 1, 2, 3}
+			}
 			for _, limit := range limits {
-				c18Orders(n, outcomes, limit, func(order []int) {
-					if rec.Enough() {
-						return
-					}
-					c := c18Case{N: n, Outcomes: outcomes, Limit: limit, Order: order}
-					total++
-					rec.Eval(1)
-					if n >= 2 {
-						rec.Distinct(fmt.Sprintf("%v/%d/%v", outcomes, limit, order))
-					}
-					if total%4001 == 1 {
-						rec.Sample(c)
-					}
-					v, key, inc := c18Run(c)
-					if v != "" {
-						rec.Violation(key, v, c)
-					}
-					if inc != "" {
-						rec.Inconclusive(fmt.Sprintf("%+v: %s", c, inc))
-					}
-				})
+				for _, kind := range kinds {
+					c18Orders(n, outcomes, limit, func(order []int) {
+						if rec.Enough() {
+							return
+						}
+						c := c18Case{N: n, Outcomes: outcomes, Limit: limit, Order: order, ErrKind: kind}
+						total++
+						rec.Eval(1)
+						if n >= 2 {
+							rec.Distinct(fmt.Sprintf("%v/%d/%v/%d", outcomes, limit, order, kind))
+						}
+						if total%4001 == 1 {
+							rec.Sample(c)
+						}
+						v, key, inc := c18Run(c)
+						if v != "" {
+							rec.Violation(key, v, c)
+						}
+						if inc != "" {
+							rec.Inconclusive(fmt.Sprintf("%+v: %s", c, inc))
+						}
+					})
+				}
 			}
 		}
 	}
